@@ -138,7 +138,11 @@ def chains(run):
                     facts2 = finite_inputs(E, srt, 2)
                     if fam == "float8" or run.tier == "thorough":
                         # the bound presupposes a scale with full precision: carved at "the scale is a normal number of the dtype"
-                        s_normal = z3.fpGEQ(s, z3.FPVal({"float16": 2.0**-14, "bfloat16": 2.0**-126, "float32": 2.0**-126}[dtype], srt))
+                        # (carved on the INPUT magnitude, not on the computed scale, so that a change of the scale computation cannot move
+                        # cases into the carved-out region: largest magnitude >= 4 * smallest normal * divisor, divisor = what the
+                        # unmodified code divides by - 127 for every weight qtype (C03's float8 finding), qmax for activations)
+                        div_ = 127.0 if (path == "weights" or qname == "qint8") else float({"qfloat8_e4m3fn": 448, "qfloat8_e5m2": 57344}[qname])
+                        s_normal = z3.fpGEQ(mag, z3.FPVal({"float16": 2.0**-14, "bfloat16": 2.0**-126, "float32": 2.0**-126}[dtype] * div_ * 4, srt))
                         run.add(f"C16/error-bounded-moderate[{tag}]/path{pi}", hy + facts2 + [moderate, s_normal], z3.fpLEQ(err, bound), "property", inst, replay=rp, timeout=FT)
                         run.add(f"C16/{fam}/error-bounded-with-a-subnormal-scale[{tag}]/path{pi}", hy + facts2 + [moderate, z3.Not(s_normal)], z3.fpLEQ(err, bound), "property", inst,
                                 replay=lambda m, sd, i=dict(inst): replay_subnormal_scale(m, sd, i), timeout=FT)
